@@ -1,9 +1,11 @@
 package main
 
 import (
+	"fmt"
 	"go/constant"
 	"go/token"
 	"go/types"
+	"sort"
 	"strings"
 
 	"golang.org/x/tools/go/ssa"
@@ -56,6 +58,44 @@ func rootOfPath(v ssa.Value) ssa.Value {
 		break
 	}
 	return v
+}
+
+// passesField: the access chain of v (loads, field selections, indexing) goes through a field with one of the names.
+func passesField(v ssa.Value, names ...string) bool {
+	for k := 0; k < 12; k++ {
+		switch x := v.(type) {
+		case *ssa.UnOp:
+			if x.Op != token.MUL {
+				return false
+			}
+			v = x.X
+		case *ssa.FieldAddr:
+			fn := fieldName(x.X.Type(), x.Field)
+			for _, n := range names {
+				if fn == n {
+					return true
+				}
+			}
+			v = x.X
+		case *ssa.Field:
+			fn := fieldName(x.X.Type(), x.Field)
+			for _, n := range names {
+				if fn == n {
+					return true
+				}
+			}
+			v = x.X
+		case *ssa.IndexAddr:
+			v = x.X
+		case *ssa.Index:
+			v = x.X
+		case *ssa.Lookup:
+			v = x.X
+		default:
+			return false
+		}
+	}
+	return false
 }
 
 // impliesNonPositive: taking an edge on which `x op k` is known (already polarity-adjusted) implies x <= 0.
@@ -317,6 +357,39 @@ func ruleC15SetStampsExpiration(c *Ctx) {
 			return isN && nw.Call.IsInvoke() && nw.Call.Method.Name() == "Now"
 		}
 	}
+	// a helper of the package that stamps the item it is given on every path where expiry may be positive
+	stampHelper := map[*ssa.Function]int{}
+	stampOrHelper := func(item ssa.Value) func(ssa.Instruction) bool {
+		direct := stampOf(item)
+		return func(i ssa.Instruction) bool {
+			if direct(i) {
+				return true
+			}
+			cv, ok := i.(*ssa.Call)
+			if !ok {
+				return false
+			}
+			h := staticCallee(cv)
+			if h == nil || h.Blocks == nil || h.Pkg == nil || h.Pkg.Pkg.Path() != pkgCache {
+				return false
+			}
+			for k, a := range cv.Call.Args {
+				if resolve(a) != resolve(item) || k >= len(h.Params) {
+					continue
+				}
+				key := k + 1
+				if got, seen := stampHelper[h]; seen {
+					return got == key
+				}
+				stampHelper[h] = 0
+				if ok, _ := mustPass(h.Blocks[0], 0, stampOf(h.Params[k]), voidEdge); ok {
+					stampHelper[h] = key
+					return true
+				}
+			}
+			return false
+		}
+	}
 	n := 0
 	allInstrs(f, func(i ssa.Instruction) {
 		switch x := i.(type) {
@@ -331,7 +404,7 @@ func ruleC15SetStampsExpiration(c *Ctx) {
 			}
 			n++
 			c.CallSites++
-			ok, tr := mustPass(x.Block(), indexOf(x)+1, stampOf(fa.X), voidEdge)
+			ok, tr := mustPass(x.Block(), indexOf(x)+1, stampOrHelper(fa.X), voidEdge)
 			if ok {
 				c.ok("cache.Set/"+kind+"-stamps-expiration", u.ipos(x), "expiration = clock.Now().Add(c.expiry) follows on every path where expiry may be positive")
 			} else {
@@ -342,4 +415,1288 @@ func ruleC15SetStampsExpiration(c *Ctx) {
 	if n < 2 {
 		c.bad("cache.Set/stamps-expiration", u.pos(f.Pos()), "expected the update-path and insert-path stores of the value argument in Set")
 	}
+}
+
+// ---------------------------------------------------------------------------------------------
+// E-TIME: exact linear evaluation of time arithmetic
+
+// linT is a linear form over symbols, in nanoseconds: sum(coef[s]*s) + k. bad != "" means the value involves an
+// operation that is not an exact instant/duration operation (calendar arithmetic, rounding, truncation, division, …).
+type linT struct {
+	coef map[string]int64
+	k    int64
+	bad  string
+}
+
+func linSym(s string) linT   { return linT{coef: map[string]int64{s: 1}} }
+func linBad(why string) linT { return linT{bad: why} }
+func (a linT) scale(m int64) linT {
+	if a.bad != "" {
+		return a
+	}
+	out := linT{coef: map[string]int64{}, k: a.k * m}
+	for s, c := range a.coef {
+		if c*m != 0 {
+			out.coef[s] = c * m
+		}
+	}
+	return out
+}
+func (a linT) plus(b linT) linT {
+	if a.bad != "" {
+		return a
+	}
+	if b.bad != "" {
+		return b
+	}
+	out := linT{coef: map[string]int64{}, k: a.k + b.k}
+	for s, c := range a.coef {
+		out.coef[s] += c
+	}
+	for s, c := range b.coef {
+		out.coef[s] += c
+	}
+	for s, c := range out.coef {
+		if c == 0 {
+			delete(out.coef, s)
+		}
+	}
+	return out
+}
+func (a linT) equal(b linT) bool {
+	if a.bad != "" || b.bad != "" || a.k != b.k || len(a.coef) != len(b.coef) {
+		return false
+	}
+	for s, c := range a.coef {
+		if b.coef[s] != c {
+			return false
+		}
+	}
+	return true
+}
+func (a linT) String() string {
+	if a.bad != "" {
+		return "⊥(" + a.bad + ")"
+	}
+	var parts []string
+	for s, c := range a.coef {
+		parts = append(parts, fmt.Sprintf("%d·%s", c, s))
+	}
+	sort.Strings(parts)
+	if a.k != 0 || len(parts) == 0 {
+		parts = append(parts, fmt.Sprint(a.k))
+	}
+	return strings.Join(parts, " + ")
+}
+
+// evalTime evaluates an instant (time.Time, as ns since the epoch), a time.Duration or an integer. sym names
+// parameters and other leaves.
+func evalTime(v ssa.Value, sym func(ssa.Value) (string, bool), depth int) linT {
+	if depth > 16 {
+		return linBad("expression too deep")
+	}
+	v = resolve(v)
+	if s, ok := sym(v); ok {
+		return linSym(s)
+	}
+	switch x := v.(type) {
+	case *ssa.Const:
+		if x.Value != nil && x.Value.Kind() == constant.Int {
+			if k, ok := constantInt64(x.Value); ok {
+				return linT{coef: map[string]int64{}, k: k}
+			}
+		}
+		return linBad("constant " + x.String())
+	case *ssa.Convert:
+		if b, ok := x.Type().Underlying().(*types.Basic); ok && b.Info()&types.IsInteger != 0 {
+			if b2, ok2 := x.X.Type().Underlying().(*types.Basic); ok2 && b2.Info()&types.IsInteger != 0 {
+				return evalTime(x.X, sym, depth+1)
+			}
+		}
+		return linBad("conversion " + x.X.Type().String() + "→" + x.Type().String())
+	case *ssa.ChangeType:
+		return evalTime(x.X, sym, depth+1)
+	case *ssa.BinOp:
+		switch x.Op {
+		case token.ADD:
+			return evalTime(x.X, sym, depth+1).plus(evalTime(x.Y, sym, depth+1))
+		case token.SUB:
+			return evalTime(x.X, sym, depth+1).plus(evalTime(x.Y, sym, depth+1).scale(-1))
+		case token.MUL:
+			a, b := evalTime(x.X, sym, depth+1), evalTime(x.Y, sym, depth+1)
+			if a.bad == "" && len(a.coef) == 0 {
+				return b.scale(a.k)
+			}
+			if b.bad == "" && len(b.coef) == 0 {
+				return a.scale(b.k)
+			}
+			return linBad("non-linear product")
+		}
+		return linBad("operator " + x.Op.String())
+	case *ssa.Call:
+		g := staticCallee(x)
+		if g == nil {
+			if x.Call.IsInvoke() && x.Call.Method.Name() == "Now" && len(x.Call.Args) == 0 {
+				return linSym("now")
+			}
+			return linBad("dynamic call")
+		}
+		args := x.Call.Args
+		switch funcFullName(g) {
+		case "time.Now":
+			return linSym("now")
+		case "time.Unix":
+			return evalTime(args[0], sym, depth+1).scale(1e9).plus(evalTime(args[1], sym, depth+1))
+		case "time.UnixMilli":
+			return evalTime(args[0], sym, depth+1).scale(1e6)
+		case "(time.Time).Add":
+			return evalTime(args[0], sym, depth+1).plus(evalTime(args[1], sym, depth+1))
+		case "(time.Time).Sub":
+			return evalTime(args[0], sym, depth+1).plus(evalTime(args[1], sym, depth+1).scale(-1))
+		case "time.Since":
+			return linSym("now").plus(evalTime(args[0], sym, depth+1).scale(-1))
+		case "time.Until":
+			return evalTime(args[0], sym, depth+1).plus(linSym("now").scale(-1))
+		case "(time.Time).UTC", "(time.Time).Local", "(time.Time).In":
+			return evalTime(args[0], sym, depth+1) // the same instant
+		case "(time.Time).UnixNano", "(time.Duration).Nanoseconds":
+			return evalTime(args[0], sym, depth+1)
+		}
+		return linBad(funcFullName(g))
+	}
+	return linBad(describeOperand(v))
+}
+
+// evalTimeVerdict evaluates a boolean into "L > 0" (strict) or "L >= 0".
+func evalTimeVerdict(v ssa.Value, sym func(ssa.Value) (string, bool), depth int) (l linT, strict bool) {
+	v = resolve(v)
+	neg := func(l linT, strict bool) (linT, bool) { return l.scale(-1), !strict }
+	switch x := v.(type) {
+	case *ssa.UnOp:
+		if x.Op == token.NOT {
+			return neg(evalTimeVerdict(x.X, sym, depth+1))
+		}
+	case *ssa.BinOp:
+		a, b := evalTime(x.X, sym, depth+1), evalTime(x.Y, sym, depth+1)
+		switch x.Op {
+		case token.GTR:
+			return a.plus(b.scale(-1)), true
+		case token.GEQ:
+			return a.plus(b.scale(-1)), false
+		case token.LSS:
+			return b.plus(a.scale(-1)), true
+		case token.LEQ:
+			return b.plus(a.scale(-1)), false
+		}
+		return linBad("comparison " + x.Op.String()), false
+	case *ssa.Call:
+		if g := staticCallee(x); g != nil {
+			switch funcFullName(g) {
+			case "(time.Time).After":
+				return evalTime(x.Call.Args[0], sym, depth+1).plus(evalTime(x.Call.Args[1], sym, depth+1).scale(-1)), true
+			case "(time.Time).Before":
+				return evalTime(x.Call.Args[1], sym, depth+1).plus(evalTime(x.Call.Args[0], sym, depth+1).scale(-1)), true
+			}
+			return linBad(funcFullName(g)), false
+		}
+	}
+	return linBad("not a time comparison: " + describeOperand(v)), false
+}
+
+// ruleC04ExpiryArithmeticExact: "expired" means exactly now > created·1s + expireAfter. IsKeyExpired is the one place
+// every validity decision of the SDK funnels into (IsKeyInvalid, isEnvelopeInvalid, keyCache.IsInvalid — their shapes
+// are C04.latest-revalidated / C04.loader-rejects-invalid); here its own arithmetic is evaluated exactly: any calendar
+// arithmetic (AddDate follows the local zone's DST), rounding, truncation, unit conversion or division makes keys
+// outlive their lifetime on some clock readings and is reported.
+func ruleC04ExpiryArithmeticExact(c *Ctx) {
+	u := c.U1
+	c.rule("C04.expiry-arithmetic-exact", "internal.IsKeyExpired(created, expireAfter) returns, on every path, a comparison that evaluates (exact linear evaluation of time.Unix/Add/Sub/Since/After/Before and integer +,-,·const) to now − 1e9·created − expireAfter > 0 (or ≥ 0): no calendar arithmetic, rounding, truncation, unit conversion or division", 1)
+	f := u.Func(pkgInt, "IsKeyExpired")
+	if f == nil || f.Blocks == nil || len(f.Params) != 2 {
+		c.unresolved("internal.IsKeyExpired", "IsKeyExpired(created, expireAfter)")
+		return
+	}
+	c.FuncsAnalysed[shortName(f)] = true
+	sym := func(v ssa.Value) (string, bool) {
+		for k, p := range f.Params {
+			if ssa.Value(p) == v {
+				return fmt.Sprintf("p%d", k), true
+			}
+		}
+		return "", false
+	}
+	want := linSym("now").plus(linSym("p0").scale(-1e9)).plus(linSym("p1").scale(-1))
+	n := 0
+	for _, r := range returnsOf(f) {
+		if len(r.Results) != 1 {
+			continue
+		}
+		n++
+		c.CallSites++
+		var check func(v ssa.Value, depth int) (bool, string)
+		check = func(v ssa.Value, depth int) (bool, string) {
+			v = resolve(v)
+			if phi, isPhi := v.(*ssa.Phi); isPhi && depth < 4 {
+				for _, e := range phi.Edges {
+					if ok, why := check(e, depth+1); !ok {
+						return false, why
+					}
+				}
+				return true, ""
+			}
+			l, _ := evalTimeVerdict(v, sym, 0)
+			if l.equal(want) {
+				return true, ""
+			}
+			return false, l.String()
+		}
+		ok, why := check(returnedValue(r, 0), 0)
+		c.check(ok, "internal.IsKeyExpired/verdict", u.ipos(r), "now − 1e9·created − expireAfter > 0", "the expiry verdict is not the exact comparison now > created·1s + expireAfter (evaluates to: "+why+" > 0): with calendar arithmetic, rounding, truncation or unit conversion a key is still accepted for new data on some clock readings after its lifetime has passed")
+	}
+	if n == 0 {
+		c.bad("internal.IsKeyExpired/verdict", u.pos(f.Pos()), "no return found")
+	}
+}
+
+// ---------------------------------------------------------------------------------------------
+// C05.policy-durations-verbatim
+
+// ruleC05PolicyDurationsVerbatim: the three durations every validity decision reads — ExpireKeyAfter,
+// RevokeCheckInterval, CreateDatePrecision — hold what the application configured: they are written only by the
+// literal in NewCryptoPolicy (defaults, before any option runs) and by an option closure storing the option
+// constructor's own parameter. A clamp, a "sanitised" default for 0, a unit conversion or a write from elsewhere makes
+// the effective interval differ from the configured one (a configured 0 — "always re-check" — silently becomes an hour).
+func ruleC05PolicyDurationsVerbatim(c *Ctx) {
+	u := c.U1
+	c.rule("C05.policy-durations-verbatim", "CryptoPolicy.ExpireKeyAfter / RevokeCheckInterval / CreateDatePrecision are stored only (a) as constants in NewCryptoPolicy's literal, before any call, and (b) in a closure returned by an option constructor, storing that constructor's duration parameter unmodified", 5)
+	fields := map[string]bool{"ExpireKeyAfter": true, "RevokeCheckInterval": true, "CreateDatePrecision": true}
+	n := 0
+	for _, f := range u.RepoFuncs {
+		if f.Pkg == nil && f.Parent() == nil {
+			continue
+		}
+		root := rootFunc(f)
+		if root.Pkg == nil || !strings.HasPrefix(root.Pkg.Pkg.Path(), modApp) || strings.Contains(root.Pkg.Pkg.Path(), "/mocks") {
+			continue
+		}
+		allInstrs(f, func(i ssa.Instruction) {
+			st, ok := i.(*ssa.Store)
+			if !ok {
+				return
+			}
+			fa, isF := st.Addr.(*ssa.FieldAddr)
+			if !isF {
+				return
+			}
+			pt, isP := types.Unalias(fa.X.Type()).Underlying().(*types.Pointer)
+			if !isP || !typeIsNamed(pt.Elem(), pkgApp, "CryptoPolicy") || !fields[fieldName(fa.X.Type(), fa.Field)] {
+				return
+			}
+			n++
+			c.CallSites++
+			c.FuncsAnalysed[shortName(f)] = true
+			fld := fieldName(fa.X.Type(), fa.Field)
+			construct := trimPkgDirs(shortName(f)) + "/" + fld
+			okStore, why := false, ""
+			switch {
+			case f.Name() == "NewCryptoPolicy" && f.Parent() == nil:
+				_, isConst := constOf(st.Val)
+				_, fresh := fa.X.(*ssa.Alloc)
+				early := st.Block() == f.Blocks[0]
+				if early {
+					for _, j := range f.Blocks[0].Instrs[:indexOf(st)] {
+						if _, isCall := j.(ssa.CallInstruction); isCall {
+							early = false
+						}
+					}
+				}
+				okStore = isConst && fresh && early
+				why = "NewCryptoPolicy writes the field outside its defaults literal (after options ran, or a non-constant)"
+			case f.Parent() != nil:
+				// option closure: the stored value is the constructor's parameter, captured
+				par := f.Parent()
+				if fv, isFV := resolve(st.Val).(*ssa.FreeVar); isFV {
+					_ = fv
+				}
+				ap := trimAddr(accessPath(st.Val))
+				for _, p := range par.Params {
+					if ap == "P:"+p.Name() && len(*p.Referrers()) >= 1 {
+						okStore = true
+					}
+				}
+				// the parameter itself must not be reassigned in the constructor
+				if okStore {
+					for _, p := range par.Params {
+						if ap != "P:"+p.Name() {
+							continue
+						}
+						for _, r := range *p.Referrers() {
+							if s2, isS := r.(*ssa.Store); isS && s2.Val == ssa.Value(p) {
+								if a, isA := s2.Addr.(*ssa.Alloc); isA && len(localStores(a)) > 1 {
+									okStore = false
+								}
+							}
+						}
+					}
+				}
+				why = "an option stores something other than its constructor's parameter"
+			default:
+				why = "written outside NewCryptoPolicy and the option closures"
+			}
+			c.check(okStore, construct, u.ipos(i), "default literal / option parameter stored verbatim", "CryptoPolicy."+fld+" — "+why+": the duration the SDK enforces is no longer the one that was configured (a configured RevokeCheckInterval of 0 must mean \"re-check on every use\", a configured lifetime must be the lifetime)")
+		})
+	}
+	if n == 0 {
+		c.bad("CryptoPolicy/durations", "", "no store to the policy's duration fields found")
+	}
+}
+
+// ---------------------------------------------------------------------------------------------
+// C13.projection-covers-record
+
+// ruleC13ProjectionCoversRecord: a DynamoDB read that projects attributes must project, whole, every non-key attribute
+// Store writes (today: the record attribute); a projection onto sub-paths (KeyRecord.Key, KeyRecord.Created, …) silently
+// drops the others — above all Revoked, which an operator adds later — and the decoder fills them with zero values.
+func ruleC13ProjectionCoversRecord(c *Ctx) {
+	u := c.U1
+	c.rule("C13.projection-covers-record", "in both DynamoDB metastores every expression.NamesList(...) names only whole top-level attributes (constant names without a document path) and among them every non-key attribute that Store's PutItem writes (the Item literal's keys minus the GetItem Key literal's keys)", 2)
+	for _, m := range metastoreImpls(c) {
+		if !strings.HasPrefix(m.Kind, "dynamo") {
+			continue
+		}
+		pkg := m.N.Obj().Pkg().Path()
+		written, keyAttrs := map[string]bool{}, map[string]bool{}
+		for _, r := range clientRequests(u, pkg, "PutItem") {
+			if r.Input != nil {
+				for _, k := range mapLitKeys(litFields(r.Input)["Item"]) {
+					written[k] = true
+				}
+			}
+		}
+		for _, r := range clientRequests(u, pkg, "GetItem") {
+			if r.Input != nil {
+				for _, k := range mapLitKeys(litFields(r.Input)["Key"]) {
+					keyAttrs[k] = true
+				}
+			}
+		}
+		var required []string
+		for k := range written {
+			if !keyAttrs[k] {
+				required = append(required, k)
+			}
+		}
+		sort.Strings(required)
+		if len(written) == 0 || len(keyAttrs) == 0 || len(required) == 0 {
+			c.undecided(trimPkgDirs(pkg)+"/attributes", "", fmt.Sprintf("could not read the attribute names from the PutItem Item / GetItem Key literals (written %v, key %v)", keysOf(written), keysOf(keyAttrs)))
+			continue
+		}
+		nl := 0
+		for _, f := range u.RepoFuncs {
+			if f.Pkg == nil || f.Pkg.Pkg.Path() != pkg {
+				continue
+			}
+			allInstrs(f, func(i ssa.Instruction) {
+				cv, ok := i.(*ssa.Call)
+				if !ok {
+					return
+				}
+				g := staticCallee(cv)
+				if g == nil || g.Name() != "NamesList" || g.Pkg == nil || !strings.HasSuffix(g.Pkg.Pkg.Path(), "/expression") {
+					return
+				}
+				nl++
+				c.CallSites++
+				c.FuncsAnalysed[shortName(f)] = true
+				names := map[string]bool{}
+				opaque := ""
+				addName := func(v ssa.Value) {
+					nc, isC := resolve(v).(*ssa.Call)
+					if isC {
+						if h := staticCallee(nc); h != nil && h.Name() == "Name" && len(nc.Call.Args) == 1 {
+							if k, isK := constOf(nc.Call.Args[0]); isK && k.Kind() == constant.String {
+								names[constant.StringVal(k)] = true
+								return
+							}
+						}
+					}
+					opaque = describeOperand(v)
+				}
+				for _, a := range cv.Call.Args {
+					if sl, isS := a.(*ssa.Slice); isS {
+						if al, isA := sl.X.(*ssa.Alloc); isA {
+							for _, r := range *al.Referrers() {
+								if ia, isIA := r.(*ssa.IndexAddr); isIA {
+									for _, r2 := range *ia.Referrers() {
+										if st, isSt := r2.(*ssa.Store); isSt {
+											addName(st.Val)
+										}
+									}
+								}
+							}
+							continue
+						}
+						opaque = describeOperand(a)
+						continue
+					}
+					if isNilConst(a) {
+						continue
+					}
+					addName(a)
+				}
+				construct := trimPkgDirs(shortName(f)) + "/projection"
+				if opaque != "" {
+					c.undecided(construct, u.ipos(i), "a projected name is not expression.Name(<constant>): "+opaque)
+					return
+				}
+				bad := ""
+				for n := range names {
+					if strings.ContainsAny(n, ".[") {
+						bad = "projects the document path " + n + " instead of a whole attribute"
+					}
+				}
+				for _, r := range required {
+					if !names[r] && bad == "" {
+						bad = "does not project the attribute " + r + " that Store writes"
+					}
+				}
+				c.check(bad == "", construct, u.ipos(i), fmt.Sprintf("projects %v ⊇ %v, whole attributes", keysOf(names), required), "the read "+bad+fmt.Sprintf(" (projected: %v; written by Store besides the key: %v): fields outside the projection — Revoked is added to a stored record later by the operator — never reach the decoder and come back as zero values, so a revoked key is read as valid for ever", keysOf(names), required))
+			})
+		}
+		if nl == 0 {
+			c.ok(trimPkgDirs(pkg)+"/projection", "", "no projection is built in this package: whole items are read")
+		}
+	}
+}
+
+func keysOf(m map[string]bool) []string {
+	var out []string
+	for k := range m {
+		out = append(out, k)
+	}
+	sort.Strings(out)
+	return out
+}
+
+// ---------------------------------------------------------------------------------------------
+// C10.accessor-forwards-action-result
+
+// ruleC10AccessorForwardsActionResult: the SDK's callers of WithBytesFunc wipe whatever the accessor returns together
+// with an error (C10.accessor-error-discards-result). That only works if an accessor implementation never drops the
+// action's result on the floor: once its action has run, the []byte it returns is the action's result on every path
+// (in particular when re-protecting the pages fails afterwards) — or it wipes that result itself.
+func ruleC10AccessorForwardsActionResult(c *Ctx) {
+	u := c.U1
+	c.rule("C10.accessor-forwards-action-result", "in every accessor implementation (a method WithBytesFunc that calls its action parameter) the []byte result slot is written only with the action's own result — in the method and in its deferred closures — unless that result is wiped first: the plaintext an action produced is never dropped un-wiped when release fails", 2)
+	n := 0
+	for _, f := range u.RepoFuncs {
+		if f.Name() != "WithBytesFunc" || f.Signature.Recv() == nil || f.Blocks == nil || f.Pkg == nil || strings.Contains(f.Pkg.Pkg.Path(), "/mocks") || f.Synthetic != "" {
+			continue
+		}
+		// the action call
+		var action *ssa.Call
+		allInstrs(f, func(i ssa.Instruction) {
+			cv, ok := i.(*ssa.Call)
+			if !ok || cv.Call.IsInvoke() {
+				return
+			}
+			for _, p := range f.Params {
+				if resolve(cv.Call.Value) == ssa.Value(p) {
+					action = cv
+				}
+			}
+		})
+		if action == nil {
+			continue // forwards to another accessor: C10.accessor-error-discards-result
+		}
+		n++
+		c.FuncsAnalysed[shortName(f)] = true
+		name := trimPkgDirs(shortName(f))
+		isActionData := func(v ssa.Value) bool {
+			ex, ok := resolve(v).(*ssa.Extract)
+			return ok && ex.Tuple == ssa.Value(action) && isByteSlice(ex.Type())
+		}
+		wipedBefore := func(st *ssa.Store, slot ssa.Value) bool {
+			// a wipe of the slot's current content earlier in the same block
+			for _, j := range st.Block().Instrs[:indexOf(st)] {
+				if g := staticCallee(j); g != nil && isWipeFunc(g) {
+					if a := callOf(j).Args; len(a) > 0 {
+						if ld, isL := a[0].(*ssa.UnOp); isL && ld.Op == token.MUL && resolveSlot(ld.X) == resolveSlot(slot) {
+							return true
+						}
+					}
+				}
+			}
+			return false
+		}
+		// result slot (named result) if any
+		var slot *ssa.Alloc
+		for _, r := range returnsOf(f) {
+			if len(r.Results) == 2 {
+				if ld, ok := r.Results[0].(*ssa.UnOp); ok && ld.Op == token.MUL {
+					if a, isA := ld.X.(*ssa.Alloc); isA {
+						slot = a
+					}
+				}
+			}
+		}
+		bad := ""
+		badPos := ""
+		if slot != nil {
+			for _, g := range withAnon(f) {
+				allInstrs(g, func(i ssa.Instruction) {
+					st, ok := i.(*ssa.Store)
+					if !ok || resolveSlot(st.Addr) != ssa.Value(slot) {
+						return
+					}
+					c.CallSites++
+					if isActionData(st.Val) {
+						return
+					}
+					if g == f && !reaches(action, st) {
+						return // before the action ran (early error return): nothing to lose
+					}
+					if wipedBefore(st, st.Addr) {
+						return
+					}
+					bad, badPos = "the result slot is overwritten with "+describeOperand(st.Val)+" after the action ran", u.ipos(st)
+				})
+			}
+		} else {
+			for _, r := range returnsOf(f) {
+				if len(r.Results) != 2 || !reaches(action, r) {
+					continue
+				}
+				c.CallSites++
+				if !isActionData(returnedValue(r, 0)) {
+					bad, badPos = "a return after the action ran carries "+describeOperand(returnedValue(r, 0))+" instead of the action's result", u.ipos(r)
+				}
+			}
+		}
+		if bad == "" {
+			c.ok(name+"/result", u.pos(f.Pos()), "only the action's own result is ever returned once it ran")
+		} else {
+			c.bad(name+"/result", badPos, bad+": the plaintext key bytes the action produced are dropped without being wiped (the callers can only wipe what they are handed), so a failing release/re-protect leaves an unwrapped key on the heap")
+		}
+	}
+	if n == 0 {
+		c.bad("WithBytesFunc/implementations", "", "no accessor implementation calling its action found")
+	}
+}
+
+// resolveSlot maps a free variable bound to a local of the enclosing function to that local.
+func resolveSlot(v ssa.Value) ssa.Value {
+	if fv, ok := v.(*ssa.FreeVar); ok {
+		fn := fv.Parent()
+		for idx, x := range fn.FreeVars {
+			if x == fv {
+				for _, mc := range makeClosuresOf(fn) {
+					if idx < len(mc.Bindings) {
+						return resolveSlot(mc.Bindings[idx])
+					}
+				}
+			}
+		}
+	}
+	return v
+}
+
+func isWipeFunc(g *ssa.Function) bool {
+	switch funcFullName(g) {
+	case fnMemClr, fnCoreWipe:
+		return true
+	}
+	return g.Name() == "WipeBytes" || g.Name() == "Wipe" || g.Name() == "MemClr"
+}
+
+// ---------------------------------------------------------------------------------------------
+// C07.decoded-pointer-elements-guarded
+
+// decodedStructs: the named struct types (declared in the repository) that can occur inside a value of type t.
+func decodedStructs(t types.Type, into map[*types.Named]bool, depth int) {
+	if depth > 8 {
+		return
+	}
+	switch x := types.Unalias(t).(type) {
+	case *types.Pointer:
+		decodedStructs(x.Elem(), into, depth+1)
+	case *types.Slice:
+		decodedStructs(x.Elem(), into, depth+1)
+	case *types.Array:
+		decodedStructs(x.Elem(), into, depth+1)
+	case *types.Map:
+		decodedStructs(x.Elem(), into, depth+1)
+	case *types.Named:
+		st, ok := x.Underlying().(*types.Struct)
+		if !ok || into[x] {
+			return
+		}
+		if x.Obj().Pkg() == nil || !strings.HasPrefix(x.Obj().Pkg().Path(), "github.com/godaddy/asherah/") && !strings.HasPrefix(x.Obj().Pkg().Path(), "fixtures/") {
+			return
+		}
+		into[x] = true
+		for i := 0; i < st.NumFields(); i++ {
+			decodedStructs(st.Field(i).Type(), into, depth+1)
+		}
+	}
+}
+
+type elemDeref struct {
+	Instr ssa.Instruction
+	Ptr   ssa.Value
+}
+
+// nullableElementDerefs: dereferences (field access, load) in f of a pointer that was read out of a slice or map of
+// pointers to a decoded struct type, with no dominating non-nil test of that pointer. A JSON `null` among the elements
+// decodes to a nil pointer.
+func nullableElementDerefs(f *ssa.Function, decoded map[*types.Named]bool) []elemDeref {
+	isDecodedPtr := func(t types.Type) bool {
+		p, ok := types.Unalias(t).Underlying().(*types.Pointer)
+		if !ok {
+			return false
+		}
+		n, ok := namedOf(p.Elem())
+		return ok && decoded[n]
+	}
+	fromContainer := func(v ssa.Value) bool {
+		switch x := v.(type) {
+		case *ssa.UnOp:
+			if x.Op == token.MUL {
+				if ia, ok := x.X.(*ssa.IndexAddr); ok {
+					_, isSl := ia.X.Type().Underlying().(*types.Slice)
+					return isSl
+				}
+			}
+		case *ssa.Index:
+			return true
+		case *ssa.Lookup:
+			_, isMap := x.X.Type().Underlying().(*types.Map)
+			return isMap
+		case *ssa.Extract:
+			switch t := x.Tuple.(type) {
+			case *ssa.Lookup:
+				return x.Index == 0
+			case *ssa.Next:
+				return !t.IsString && x.Index == 2
+			}
+		}
+		return false
+	}
+	var out []elemDeref
+	allInstrs(f, func(i ssa.Instruction) {
+		var p ssa.Value
+		switch x := i.(type) {
+		case *ssa.FieldAddr:
+			p = x.X
+		case *ssa.UnOp:
+			if x.Op == token.MUL {
+				p = x.X
+			}
+		}
+		if p == nil || !isDecodedPtr(p.Type()) || !fromContainer(p) {
+			return
+		}
+		if knownNonNil(p, i.Block()) {
+			return
+		}
+		out = append(out, elemDeref{i, p})
+	})
+	return out
+}
+
+// ruleC07DecodedPointerElementsGuarded: whatever is decoded from a stored or transmitted document is attacker- or
+// corruption-controlled: a `null` among the elements of a []*T / map[…]*T decodes to a nil pointer. On the decrypt
+// path every such element is tested before it is dereferenced.
+func ruleC07DecodedPointerElementsGuarded(c *Ctx) {
+	u := c.U1
+	c.rule("C07.decoded-pointer-elements-guarded", "for every struct type that json.Unmarshal decodes into on the decrypt path (reachable from DecryptDataRowRecord / Session.Load / Session.Decrypt, KMS plugins included): a pointer read out of a slice or map of pointers to such a type is dereferenced only under a dominating non-nil test (a `null` element must yield an error, not a panic)", 0)
+	cg := newCallGraph(u)
+	funcs := map[*ssa.Function]bool{}
+	for _, start := range []*ssa.Function{u.Method(pkgApp, "envelopeEncryption", "DecryptDataRowRecord"), u.Method(pkgApp, "Session", "Load"), u.Method(pkgApp, "Session", "Decrypt")} {
+		if start == nil {
+			c.unresolved("decrypt entry points", "DecryptDataRowRecord / Session.Load")
+			return
+		}
+		for f := range cg.reachableFrom(start) {
+			if f.Blocks != nil && f.Pkg != nil && strings.HasPrefix(f.Pkg.Pkg.Path(), "github.com/godaddy/asherah/") {
+				funcs[f] = true
+			}
+		}
+	}
+	decoded := map[*types.Named]bool{}
+	targets := 0
+	for f := range funcs {
+		allInstrs(f, func(i ssa.Instruction) {
+			g := staticCallee(i)
+			if g == nil || funcFullName(g) != "encoding/json.Unmarshal" {
+				return
+			}
+			targets++
+			a := callOf(i).Args[1]
+			if mi, ok := a.(*ssa.MakeInterface); ok {
+				decodedStructs(mi.X.Type(), decoded, 0)
+			}
+		})
+	}
+	n := 0
+	for f := range funcs {
+		for _, d := range nullableElementDerefs(f, decoded) {
+			n++
+			c.CallSites++
+			c.bad(trimPkgDirs(shortName(f))+"/element "+describeOperand(d.Ptr), u.ipos(d.Instr), "a pointer element of a decoded list/map is dereferenced without a non-nil test: a `null` entry in the stored document (a corrupted or forged key envelope) crashes the process with a nil dereference instead of producing an error")
+		}
+	}
+	c.check(targets > 0, "decrypt-path/json-targets", "", fmt.Sprintf("%d json.Unmarshal targets on the decrypt path, %d decoded struct types, %d unguarded element dereferences", targets, len(decoded), n), "no json.Unmarshal found on the decrypt path: the rule would pass vacuously")
+}
+
+// ---------------------------------------------------------------------------------------------
+// C02.errors-are-not-remembered
+
+// rememberedErrorLeaf: the provenance of an error value that is not produced by this invocation: a value read out of a
+// map, or out of a field of an object that outlives the call.
+func rememberedErrorLeaf(v ssa.Value, seen map[ssa.Value]bool, depth int) string {
+	if depth > 10 || seen[v] {
+		return ""
+	}
+	seen[v] = true
+	switch x := v.(type) {
+	case *ssa.Phi:
+		for _, e := range x.Edges {
+			if s := rememberedErrorLeaf(e, seen, depth+1); s != "" {
+				return s
+			}
+		}
+	case *ssa.Extract:
+		if lk, ok := x.Tuple.(*ssa.Lookup); ok {
+			return "a map lookup (" + describeOperand(lk.X) + ")"
+		}
+		if ta, ok := x.Tuple.(*ssa.TypeAssert); ok {
+			return rememberedErrorLeaf(ta.X, seen, depth+1)
+		}
+	case *ssa.Lookup:
+		if _, isMap := x.X.Type().Underlying().(*types.Map); isMap {
+			return "a map lookup (" + describeOperand(x.X) + ")"
+		}
+	case *ssa.Field:
+		return rememberedErrorLeaf(x.X, seen, depth+1)
+	case *ssa.MakeInterface:
+		return rememberedErrorLeaf(x.X, seen, depth+1)
+	case *ssa.ChangeInterface:
+		return rememberedErrorLeaf(x.X, seen, depth+1)
+	case *ssa.UnOp:
+		if x.Op != token.MUL {
+			return ""
+		}
+		switch a := x.X.(type) {
+		case *ssa.Alloc:
+			for _, s := range localStores(a) {
+				if r := rememberedErrorLeaf(s, seen, depth+1); r != "" {
+					return r
+				}
+			}
+		case *ssa.FieldAddr:
+			if la, local := a.X.(*ssa.Alloc); local {
+				// a local struct: where does the whole struct come from?
+				for _, sv := range localStores(la) {
+					if r := rememberedErrorLeaf(sv, seen, depth+1); r != "" {
+						return r
+					}
+				}
+				return ""
+			}
+			return "the field " + trimAddr(accessPath(a)) + " of an object that outlives the call"
+		case *ssa.IndexAddr:
+			return "an element of " + describeOperand(a.X)
+		}
+	}
+	return ""
+}
+
+// ruleC02ErrorsNotRemembered: "once the faults stop the next operation succeeds": an error the SDK returns is the
+// error of an attempt made by this very call. A remembered failure (negative cache, back-off table, last-error field)
+// keeps failing callers — on a shared cache, callers of every partition — after the metastore and KMS have recovered.
+func ruleC02ErrorsNotRemembered(c *Ctx) {
+	u := c.U1
+	c.rule("C02.errors-are-not-remembered", "in package appencryption no function returns an error value that was read out of a map, or out of a field of an object that outlives the call: every returned error is produced by a call made in this invocation (or is a constant / a package-level sentinel)", 40)
+	for _, f := range u.RepoFuncs {
+		root := rootFunc(f)
+		if root.Pkg == nil || root.Pkg.Pkg.Path() != pkgApp || f.Blocks == nil {
+			continue
+		}
+		if root.Name() == "Close" {
+			continue // an idempotent Close may report its first outcome again; the clause is about operations
+		}
+		res := f.Signature.Results()
+		for k := 0; k < res.Len(); k++ {
+			if !isErrorType(res.At(k).Type()) {
+				continue
+			}
+			for _, r := range returnsOf(f) {
+				if k >= len(r.Results) {
+					continue
+				}
+				v := returnedValue(r, k)
+				if isNilValue(v) {
+					continue
+				}
+				c.CallSites++
+				c.FuncsAnalysed[shortName(f)] = true
+				why := rememberedErrorLeaf(v, map[ssa.Value]bool{}, 0)
+				c.check(why == "", trimPkgDirs(shortName(f))+"/returned-error", u.ipos(r), "the returned error is produced by this call", "the error returned here is read from "+why+", not produced by an attempt made in this call: a failure that has been remembered keeps being reported after the metastore/KMS fault is over, so the next operation does not succeed (and on a shared key cache it fails for other partitions too)")
+			}
+		}
+	}
+}
+
+// ---------------------------------------------------------------------------------------------
+// C15: the victim end of each recency list, and recency refresh on access
+
+// listFieldOf: the name of the list field the receiver of a container/list call is loaded from ("evictList",
+// "probationList", "byAccess", …), or "".
+func listFieldOf(i ssa.Instruction) string {
+	cc := callOf(i)
+	if cc == nil || len(cc.Args) == 0 {
+		return ""
+	}
+	ap := trimAddr(accessPath(cc.Args[0]))
+	if k := strings.LastIndex(ap, "."); k >= 0 {
+		return ap[k+1:]
+	}
+	if ld, ok := cc.Args[0].(*ssa.UnOp); ok && ld.Op == token.MUL {
+		if fa, isF := ld.X.(*ssa.FieldAddr); isF {
+			return fieldName(fa.X.Type(), fa.Field)
+		}
+	}
+	return ""
+}
+
+// ruleC15VictimEnd: "LRU, LFU and SLRU choose their victims as their definitions say". Per recency list of a policy:
+// every insertion / refresh goes to one end (PushFront/MoveToFront, or PushBack/MoveToBack) and every place that picks
+// an element to evict or demote reads the opposite end. A list kept in key order by InsertAfter/InsertBefore (the LFU
+// frequency list, ascending) is read from its Front. And SLRU takes a victim from the protected segment only where the
+// probation segment is known to be empty.
+func ruleC15VictimEnd(c *Ctx) {
+	u := c.U1
+	c.rule("C15.victim-end", "per list field of every eviction policy: all PushFront/MoveToFront/PushBack/MoveToBack calls use one end and all Front()/Back() reads the other; a list that is also filled with InsertAfter/InsertBefore (LFU frequencies, ascending) is read with Front(); slru.Victim reads protectedList only where probationList.Len() is known to be 0", 4)
+	for _, nt := range policyImpls(u) {
+		type use struct {
+			ins, reads map[string][]ssa.Instruction
+			ordered    bool
+		}
+		lists := map[string]*use{}
+		get := func(n string) *use {
+			if lists[n] == nil {
+				lists[n] = &use{ins: map[string][]ssa.Instruction{}, reads: map[string][]ssa.Instruction{}}
+			}
+			return lists[n]
+		}
+		ms := declMethods(u, nt)
+		for _, f := range ms {
+			c.FuncsAnalysed[shortName(f)] = true
+			for _, g := range withAnon(f) {
+				allInstrs(g, func(i ssa.Instruction) {
+					op := listCallName(i)
+					if op == "" {
+						return
+					}
+					fld := listFieldOf(i)
+					if fld == "" {
+						return
+					}
+					switch op {
+					case "PushFront", "MoveToFront":
+						get(fld).ins["front"] = append(get(fld).ins["front"], i)
+					case "PushBack", "MoveToBack":
+						get(fld).ins["back"] = append(get(fld).ins["back"], i)
+					case "InsertAfter", "InsertBefore":
+						get(fld).ordered = true
+					case "Front":
+						get(fld).reads["front"] = append(get(fld).reads["front"], i)
+					case "Back":
+						get(fld).reads["back"] = append(get(fld).reads["back"], i)
+					}
+				})
+			}
+		}
+		for fld, us := range lists {
+			construct := nt.Obj().Name() + "." + fld
+			if len(us.reads["front"])+len(us.reads["back"]) == 0 {
+				continue
+			}
+			c.CallSites++
+			if us.ordered {
+				if len(us.reads["back"]) > 0 {
+					c.bad(construct, u.ipos(us.reads["back"][0]), "the ordered (ascending) list is read from its Back: the victim comes from the highest bucket, i.e. the most frequently used entries are evicted first")
+				} else {
+					c.ok(construct, u.ipos(us.reads["front"][0]), "ordered list read from Front")
+				}
+				continue
+			}
+			switch {
+			case len(us.ins["front"]) > 0 && len(us.ins["back"]) > 0:
+				c.bad(construct, u.ipos(us.ins["back"][0]), "entries are inserted/refreshed at both ends of this recency list: its order no longer is recency order")
+			case len(us.ins["front"]) > 0 && len(us.reads["front"]) > 0:
+				c.bad(construct, u.ipos(us.reads["front"][0]), "the victim (or the entry to demote) is read from the end where entries are inserted and refreshed: the most recently used entry is evicted instead of the least recently used one")
+			case len(us.ins["back"]) > 0 && len(us.reads["back"]) > 0:
+				c.bad(construct, u.ipos(us.reads["back"][0]), "the victim (or the entry to demote) is read from the end where entries are inserted and refreshed: the most recently used entry is evicted instead of the least recently used one")
+			case len(us.ins["front"])+len(us.ins["back"]) == 0:
+				c.undecided(construct, u.ipos(append(us.reads["front"], us.reads["back"]...)[0]), "no insertion into this list found among the policy's methods")
+			default:
+				c.ok(construct, u.ipos(append(us.reads["front"], us.reads["back"]...)[0]), "inserted/refreshed at one end, evicted/demoted from the other")
+			}
+		}
+		// SLRU: protected victims only when probation is empty
+		if v := ms["Victim"]; v != nil {
+			allInstrs(v, func(i ssa.Instruction) {
+				if listCallName(i) != "Back" && listCallName(i) != "Front" {
+					return
+				}
+				if listFieldOf(i) != "protectedList" {
+					return
+				}
+				c.CallSites++
+				empty := false
+				for _, fct := range factsAt(i.Block()) {
+					b, ok := fct.V.(*ssa.BinOp)
+					if !ok {
+						continue
+					}
+					isProbLen := func(x ssa.Value) bool {
+						cv, isC := resolve(x).(*ssa.Call)
+						return isC && listCallName(cv) == "Len" && listFieldOf(cv) == "probationList"
+					}
+					if op, k, ok := cmpOnEdge(b, fct.True, isProbLen); ok {
+						if (op == token.LEQ && k <= 0) || (op == token.LSS && k <= 1) || (op == token.EQL && k == 0) {
+							empty = true
+						}
+					}
+				}
+				c.check(empty, nt.Obj().Name()+".Victim/protected", u.ipos(i), "protected victim only with probation known empty", "slru.Victim takes its victim from the protected segment on a path where the probation segment is not known to be empty: SLRU evicts from probation first; a protected (re-used) entry is evicted while once-used entries stay")
+			})
+		}
+	}
+}
+
+// ruleC15AccessRefreshes: a hit refreshes the entry's standing in its policy on every path: Access moves/re-files the
+// item (a list move or push, a helper of the type that does, or the delegate policy's Access). A path that skips it
+// leaves the order stale and the policy evicts entries that were just used.
+func ruleC15AccessRefreshes(c *Ctx) {
+	u := c.U1
+	c.rule("C15.access-refreshes", "in every eviction policy, every path through Access(item) passes a list move/push, a helper of the policy that contains one, or another policy's Access: a hit always updates recency/frequency", 4)
+	for _, nt := range policyImpls(u) {
+		ms := declMethods(u, nt)
+		f := ms["Access"]
+		if f == nil {
+			c.unresolved(nt.Obj().Name()+".Access", "method")
+			continue
+		}
+		c.FuncsAnalysed[shortName(f)] = true
+		var refreshes func(i ssa.Instruction, depth int) bool
+		refreshes = func(i ssa.Instruction, depth int) bool {
+			switch listCallName(i) {
+			case "MoveToFront", "MoveToBack", "PushFront", "PushBack", "InsertAfter", "InsertBefore":
+				return true
+			}
+			cc := callOf(i)
+			if cc == nil {
+				return false
+			}
+			if cc.IsInvoke() {
+				return cc.Method.Name() == "Access"
+			}
+			g := staticCallee(i)
+			if g == nil || g.Blocks == nil || g.Pkg == nil || g.Pkg.Pkg.Path() != pkgCache || depth > 3 {
+				return false
+			}
+			if g.Name() == "Access" && g != f {
+				return true
+			}
+			// a helper: refreshes on every path
+			ok, _ := mustPass(g.Blocks[0], 0, func(j ssa.Instruction) bool { return refreshes(j, depth+1) }, nil)
+			return ok
+		}
+		ok, tr := mustPass(f.Blocks[0], 0, func(j ssa.Instruction) bool { return refreshes(j, 0) }, nil)
+		c.CallSites++
+		if ok {
+			c.ok(nt.Obj().Name()+".Access", u.pos(f.Pos()), "every path refreshes the item's position")
+		} else {
+			c.bad(nt.Obj().Name()+".Access", u.pos(f.Pos()), "a path through Access returns without moving or re-filing the item: the hit is not recorded, so the policy's order is stale and it evicts an entry that was just used instead of the least recently/frequently used one", u.tracePositions(tr)...)
+		}
+	}
+}
+
+// ---------------------------------------------------------------------------------------------
+// C13.latest-is-first-of-one-query
+
+// ruleC13LatestFirstOfOneQuery: the DynamoDB LoadLatest relies on the query itself (descending, Limit 1,
+// C13.consistent-reads) to put the newest record first: it issues that query once and decodes Items[0] of that very
+// response. A loop over pages, or an item carried in a variable across several responses, ends on an older record.
+func ruleC13LatestFirstOfOneQuery(c *Ctx) {
+	u := c.U1
+	c.rule("C13.latest-is-first-of-one-query", "in LoadLatest of both DynamoDB metastores the Query call is not inside a loop, and the record returned is decoded from element 0 of the Items of that call's own output (directly, not through a variable assigned on several paths)", 2)
+	for _, m := range metastoreImpls(c) {
+		if !strings.HasPrefix(m.Kind, "dynamo") {
+			continue
+		}
+		f := u.MethodOf(m.N, "LoadLatest")
+		if f == nil || f.Blocks == nil {
+			c.unresolved(m.N.Obj().Name()+".LoadLatest", "method")
+			continue
+		}
+		c.FuncsAnalysed[shortName(f)] = true
+		name := trimPkgDirs(shortName(f))
+		var q *ssa.Call
+		nq := 0
+		allInstrs(f, func(i ssa.Instruction) {
+			if cv, ok := i.(*ssa.Call); ok && cv.Call.IsInvoke() && strings.HasPrefix(cv.Call.Method.Name(), "Query") {
+				q = cv
+				nq++
+			}
+		})
+		if q == nil || nq != 1 {
+			c.bad(name+"/query", u.pos(f.Pos()), fmt.Sprintf("expected exactly one Query call in LoadLatest, found %d", nq))
+			continue
+		}
+		c.CallSites++
+		inLoop := false
+		for _, s := range q.Block().Succs {
+			if blockReaches(s, q.Block()) {
+				inLoop = true
+			}
+		}
+		// the decoded value: the argument of the decoder call whose result is returned
+		first := false
+		why := "no return decodes the query's Items[0]"
+		isFirstItem := func(v ssa.Value) bool {
+			// walk: [Lookup] ← load ← IndexAddr(const 0) ← load ← FieldAddr .Items ← Extract(q)
+			for k := 0; k < 10; k++ {
+				switch x := v.(type) {
+				case *ssa.Lookup:
+					v = x.X
+					continue
+				case *ssa.UnOp:
+					if x.Op == token.MUL {
+						v = x.X
+						continue
+					}
+				case *ssa.IndexAddr:
+					kc, isC := constOf(x.Index)
+					if !isC || kc.ExactString() != "0" || !passesField(x.X, "Items") {
+						return false
+					}
+					root := rootOfPath(x.X)
+					ex, isE := root.(*ssa.Extract)
+					return isE && ex.Tuple == ssa.Value(q)
+				case *ssa.Index:
+					kc, isC := constOf(x.Index)
+					if !isC || kc.ExactString() != "0" || !passesField(x.X, "Items") {
+						return false
+					}
+					root := rootOfPath(x.X)
+					ex, isE := root.(*ssa.Extract)
+					return isE && ex.Tuple == ssa.Value(q)
+				}
+				return false
+			}
+			return false
+		}
+		for _, r := range returnsOf(f) {
+			if len(r.Results) != 2 || isNilValue(returnedValue(r, 0)) {
+				continue
+			}
+			ex, ok := returnedValue(r, 0).(*ssa.Extract)
+			if !ok {
+				why = "the returned record is not the result of a decoder call"
+				continue
+			}
+			dc, ok := ex.Tuple.(*ssa.Call)
+			if !ok {
+				continue
+			}
+			for _, a := range dc.Call.Args {
+				if isFirstItem(a) {
+					first = true
+				}
+			}
+			if !first {
+				why = "the decoder is not handed Items[0] of the query's own output (an item carried in a variable, another index, or another response)"
+			}
+		}
+		switch {
+		case inLoop:
+			c.bad(name+"/query", u.ipos(q), "the Query call is inside a loop: with Limit 1 every page carries a cursor, so following pages walks the partition from the newest to the oldest record and the last page wins — an old (expired, possibly revoked) key is returned as the latest")
+		case !first:
+			c.bad(name+"/query", u.ipos(q), why+": LoadLatest may return a record other than the first of the descending query, i.e. not the greatest creation time")
+		default:
+			c.ok(name+"/query", u.ipos(q), "one query, Items[0] of its output decoded")
+		}
+	}
+}
+
+// ---------------------------------------------------------------------------------------------
+// C08.storage-does-not-release
+
+// ruleC08StorageDoesNotRelease: the reference the key cache holds on an entry's key is released at exactly one place per
+// way of leaving the cache: keyCache.write for a displaced entry (C09.displaced-entry), the eviction callback for the
+// bounded caches, the storage's Close at teardown. A storage implementation that also closes what it overwrites, looks
+// up or deletes releases that reference a second time — the count then reaches zero while a caller still uses the key.
+func ruleC08StorageDoesNotRelease(c *Ctx) {
+	u := c.U1
+	c.rule("C08.storage-does-not-release", "the key cache's own map storage (simpleCache) calls (*cachedCryptoKey).Close only in its Close method: Set/Get/GetOrPanic/Delete never release a stored entry's key (displacement is released once, by keyCache.write)", 3)
+	nt := u.Named(pkgApp, "simpleCache")
+	if nt == nil {
+		c.unresolved("simpleCache", "type")
+		return
+	}
+	for name, f := range declMethods(u, nt) {
+		c.FuncsAnalysed[shortName(f)] = true
+		if name == "Close" {
+			continue
+		}
+		c.CallSites++
+		bad := ""
+		for _, g := range withAnon(f) {
+			allInstrs(g, func(i ssa.Instruction) {
+				if h := staticCallee(i); h != nil && h.Name() == "Close" && h.Signature.Recv() != nil && strings.Contains(h.Signature.Recv().Type().String(), "cachedCryptoKey") {
+					bad = u.ipos(i)
+				}
+			})
+		}
+		c.check(bad == "", "simpleCache."+name, u.pos(f.Pos()), "does not release stored keys", "simpleCache."+name+" closes a stored entry's key ("+bad+"): keyCache.write already releases the cache's reference to a displaced entry, so this is a second release of the same reference — the count reaches zero while another goroutine is still using the key, which is destroyed underneath it")
+	}
+}
+
+// ---------------------------------------------------------------------------------------------
+// C17.kek-matched-by-region
+
+// ruleC17KEKMatchedByRegion: an envelope holds one wrapped copy of the key per region; the reader pairs each configured
+// client with the copy of ITS region. The pairing key is the region on both sides: an entry's ARN (or anything else
+// the writer recorded) need not be spelled like the reader's configuration (alias ARN vs key ARN), so pairing on it
+// makes envelopes that every region could unwrap undecryptable.
+func ruleC17KEKMatchedByRegion(c *Ctx) {
+	u := c.U1
+	c.rule("C17.kek-matched-by-region", "in both KMS plugins a regional KEK (a struct with Region and EncryptedKEK) is selected only by its Region: every comparison involving a field of a KEK compares .Region with a region (a .Region field or a parameter fed with one), every map of KEKs is filled with key kek.Region and indexed with <client>.Region", 3)
+	isKEK := func(t types.Type) bool {
+		if p, ok := types.Unalias(t).Underlying().(*types.Pointer); ok {
+			t = p.Elem()
+		}
+		n, ok := namedOf(t)
+		if !ok {
+			return false
+		}
+		st, ok := n.Underlying().(*types.Struct)
+		if !ok {
+			return false
+		}
+		has := map[string]bool{}
+		for i := 0; i < st.NumFields(); i++ {
+			has[st.Field(i).Name()] = true
+		}
+		return has["Region"] && has["EncryptedKEK"]
+	}
+	// field of a KEK value: (fieldName, true)
+	kekField := func(v ssa.Value) (string, bool) {
+		v = resolve(v)
+		switch x := v.(type) {
+		case *ssa.UnOp:
+			if x.Op == token.MUL {
+				if fa, ok := x.X.(*ssa.FieldAddr); ok && isKEK(fa.X.Type()) {
+					return fieldName(fa.X.Type(), fa.Field), true
+				}
+			}
+		case *ssa.Field:
+			if isKEK(x.X.Type()) {
+				return fieldName(x.X.Type(), x.Field), true
+			}
+		}
+		return "", false
+	}
+	var isRegion func(v ssa.Value, f *ssa.Function, depth int) bool
+	isRegion = func(v ssa.Value, f *ssa.Function, depth int) bool {
+		if strings.HasSuffix(trimAddr(accessPath(v)), ".Region") {
+			return true
+		}
+		// a parameter that every call site feeds with a region
+		if p, ok := resolve(v).(*ssa.Parameter); ok && depth < 2 {
+			idx := -1
+			for k, q := range f.Params {
+				if q == p {
+					idx = k
+				}
+			}
+			sites := 0
+			all := true
+			for _, g := range u.RepoFuncs {
+				if g.Pkg == nil || f.Pkg == nil || g.Pkg != f.Pkg {
+					continue
+				}
+				allInstrs(g, func(i ssa.Instruction) {
+					if staticCallee(i) == f && idx >= 0 {
+						sites++
+						if !isRegion(callOf(i).Args[idx], g, depth+1) {
+							all = false
+						}
+					}
+				})
+			}
+			return sites > 0 && all
+		}
+		return false
+	}
+	n := 0
+	for _, f := range u.RepoFuncs {
+		root := rootFunc(f)
+		if root.Pkg == nil || (root.Pkg.Pkg.Path() != pkgKmsV1 && root.Pkg.Pkg.Path() != pkgKmsV2) || f.Blocks == nil {
+			continue
+		}
+		allInstrs(f, func(i ssa.Instruction) {
+			construct, bad := "", ""
+			switch x := i.(type) {
+			case *ssa.BinOp:
+				if x.Op != token.EQL && x.Op != token.NEQ {
+					return
+				}
+				fx, okx := kekField(x.X)
+				fy, oky := kekField(x.Y)
+				if !okx && !oky {
+					return
+				}
+				if isNilConst(x.X) || isNilConst(x.Y) {
+					return
+				}
+				construct = "compare"
+				switch {
+				case okx && fx != "Region", oky && fy != "Region":
+					bad = "a KEK is selected by comparing its " + fx + fy + " field"
+				case okx && !oky && !isRegion(x.Y, f, 0), oky && !okx && !isRegion(x.X, f, 0):
+					bad = "a KEK's Region is compared with something that is not a region"
+				}
+			case *ssa.MapUpdate:
+				mt, ok := x.Map.Type().Underlying().(*types.Map)
+				if !ok || !isKEK(mt.Elem()) {
+					return
+				}
+				construct = "map-fill"
+				if fld, isK := kekField(x.Key); !isK || fld != "Region" {
+					bad = "the map of KEKs is keyed by " + describeOperand(x.Key) + ", not by the KEK's Region"
+				}
+			case *ssa.Lookup:
+				mt, ok := x.X.Type().Underlying().(*types.Map)
+				if !ok || !isKEK(mt.Elem()) {
+					return
+				}
+				construct = "map-lookup"
+				if !isRegion(x.Index, f, 0) {
+					bad = "the map of KEKs is indexed with " + describeOperand(x.Index) + ", not with the client's Region"
+				}
+			default:
+				return
+			}
+			n++
+			c.CallSites++
+			c.FuncsAnalysed[shortName(f)] = true
+			c.check(bad == "", trimPkgDirs(shortName(f))+"/"+construct, u.ipos(i), "paired by region", bad+": writer and reader need not spell anything but the region alike (alias ARN vs key ARN, a re-created key), so an envelope every configured region could unwrap fails with \"decrypt failed in all regions\"")
+		})
+	}
+	_ = n
 }
